@@ -116,6 +116,9 @@ def reshape(req):
         data_util.update_consumers(consumers.values(), requested_attrs)
 
         reshaper.reshape(ctx, inventory_by_rp, allocation_objects)
+        allocation.check_cleared_consumers(
+            ctx, allocations, consumers, new_consumers_created,
+            allocation_objects)
 
     def _create_allocations():
         try:
